@@ -6,7 +6,7 @@
     instance. [stuck st cfg d] = "the bundle every load picks has a key that does not match its
     certificate" (Model.v). *)
 From Coq Require Import List NArith ZArith Bool.
-From CM Require Import Bundle.Model Bundle.Proofs Bundle.Faults Bundle.Check Gen.Consts.
+From CM Require Import Bundle.Model Bundle.Proofs Bundle.Faults Bundle.Check Bundle.Sound Gen.Consts.
 Import ListNotations.
 Open Scope N_scope.
 
@@ -152,6 +152,27 @@ Proof.
   - generalize (evals_obtain cfg sp orc c T HL). rewrite HOb. auto.
 Qed.
 Print Assumptions C07_stuck_is_permanent.
+
+(** * the check's monitor and the theorems say the same thing
+    [Check.spec7_core] is the recovery clause that [check_line7] evaluates on the IMPLEMENTATION's
+    observation. Evaluated on the model's own observation of the recovery ([Check.recover]) it is true
+    under exactly the hypotheses of [C07_recoverable_partial] ... *)
+Theorem C07_monitor_sound : forall pl cfg sp orc h orc_r w0,
+  reach6 cfg sp (w_core w0) -> k_ocsp (w_core w0) = [] -> canonical sp -> (1 <= n_iss cfg)%nat ->
+  is_op7 h = true ->
+  let w1 := snd (run_hop pl cfg sp orc h w0) in
+  stuck (w_st w1) cfg (s_save sp) = false ->
+  all_up cfg orc_r (w_st w1) (s_save sp) ->
+  spec7_core cfg sp (fst (recover cfg sp orc_r w1)) (negb (stuck (w_st w1) cfg (s_load sp))) = true.
+Proof. exact monitor_sound_core. Qed.
+Print Assumptions C07_monitor_sound.
+
+(** ... and false on every stuck storage, whatever the issuers answer and whatever the twin did *)
+Theorem C07_monitor_rejects_stuck : forall cfg sp orc w tw,
+  typed (w_st w) -> canonical sp -> stuck (w_st w) cfg (s_save sp) = true ->
+  spec7_core cfg sp (fst (recover cfg sp orc w)) tw = false.
+Proof. exact monitor_rejects_stuck. Qed.
+Print Assumptions C07_monitor_rejects_stuck.
 
 (** the full statement is false: renewal with a fresh key to the same issuer, process death right
     after Storage call 11 (the Store of the new .key): the bundle is "complete" but the key does not
